@@ -156,11 +156,26 @@ def explore(units, nproc):
     run_task.units = units
     results = []
     ctxm = mp.get_context("fork")
+    # wall-clock budget of the whole exploration: the unchanged tree needs about 90 s on 16 cores; a tree on which the path tree of a unit
+    # explodes must still get an answer (the units that did not finish are reported as "cannot decide", and the generated-file search runs)
+    budget = float(os.environ.get("VERIF_EXPLORE_BUDGET", "600" if os.environ.get("VERIF_TIER", "quick") == "quick" else "2400"))
+    t_start = time.time()
     with ctxm.Pool(nproc) as pool:
         pending = []
+        owner = {}
         for ui in range(len(units)):
-            pending.append(pool.apply_async(run_task, ((ui, []),)))
+            p0 = pool.apply_async(run_task, ((ui, []),))
+            owner[id(p0)] = ui
+            pending.append(p0)
         while pending:
+            if time.time() - t_start > budget:
+                unfinished = sorted({owner.get(id(p)) for p in pending if owner.get(id(p)) is not None})
+                pool.terminate()
+                for ui in unfinished:
+                    results.append(dict(ui=ui, prefix=[], obligations=[], trail=[], outcome=None, seconds=0.0, assumed=[], inlined=[], unrolled=[], contracts_used=[], findings_present={},
+                                        findings_absent=[], ghost_assumes=[], degraded=[], hashes={}, solver={},
+                                        error="unsupported: exploration budget of %d s exceeded with %d open paths (the path tree of this unit no longer closes in time)" % (budget, len(pending))))
+                break
             nxt = []
             progressed = False
             for p in pending:
@@ -176,7 +191,9 @@ def explore(units, nproc):
                     c, n = trail[k]
                     for alt in range(c + 1, n):
                         newp = [x for x, _ in trail[:k]] + [alt]
-                        nxt.append(pool.apply_async(run_task, ((r["ui"], newp),)))
+                        pn = pool.apply_async(run_task, ((r["ui"], newp),))
+                        owner[id(pn)] = r["ui"]
+                        nxt.append(pn)
             pending = nxt
             if not progressed:
                 time.sleep(0.02)
@@ -530,6 +547,13 @@ def run(prop, tier, rep):
         except Exception as e:  # noqa
             rep.errors.append("PIX stand-in could not run: %s: %s" % (type(e).__name__, str(e)[:300]))
     if prop == "C19" and not os.environ.get("VERIF_ONLY_UNITS"):
+        # "the stream ends inside a token" has no clause of its own in the contracts (the output of such a run can be complete and of the
+        # right size): a bounded stand-in over files damaged at the places the format makes critical runs with every C19 check
+        try:
+            from vcheck import differential
+            differential.run_family(prop, rep, "damaged-t", rep.seed, "short prefixes, cuts inside the last token, lowered control bytes, changed fixed bytes")
+        except Exception as e:  # noqa
+            rep.errors.append("damaged-file stand-in could not run: %s: %s" % (type(e).__name__, str(e)[:300]))
         try:
             from vcheck import cli_loud
             n, nbad = cli_loud.run(prop, rep)
